@@ -167,6 +167,9 @@ def features(spec):
         pairs[k] = pairs.get(k, 0) + 1
     elinks = G.effective_links(spec)
     f = {
+        "link_tank_to_tank": any(l["start"] in tanks and l["end"] in tanks for l in elinks),
+        "link_reservoir_to_reservoir": any(l["start"] not in tanks and l["end"] not in tanks and
+                                           {l["start"], l["end"]} <= set(n["name"] for n in srcs) for l in elinks),
         "reversed_links": any(e["op"] == "reverse" for e in spec.get("edits", [])),
         "end_node_reassigned": any(e["op"] != "reverse" for e in spec.get("edits", [])),
         "end_node_reassigned_to_tank": any(e["op"] != "reverse" and e["node"] in tanks for e in spec.get("edits", [])),
